@@ -36,12 +36,15 @@ PROPS = {
     "C13": {
         "module": "ShapeVerif.Props.C13",
         "theorems": ["ShapeVerif.defined_once", "ShapeVerif.refs_defined", "ShapeVerif.createSubtype_covers",
-                     "ShapeVerif.createSubtype_definesOnce_aux"],
+                     "ShapeVerif.createSubtype_definesOnce_aux", "ShapeVerif.fields_legal", "ShapeVerif.toSnake_lower"],
+        "extra_modules": ["ShapeVerif.Props.C13Fields"],
         "statements": {
             "defined_once": "∀ s, the names of the struct/enum items emitted for s are pairwise distinct",
             "refs_defined": "∀ s, ∀ item ∈ firstPass s, every named type occurring in the item's field / variant / alias types is the name of an item of firstPass s (the module is self-contained)",
+            "fields_legal": "badFields s = false → every struct emitted for s (at any nesting depth) has field names that are legal Rust identifiers (letters/digits/underscore, not a keyword, not `_`) and pairwise distinct — badFields is exactly the recorded class D17 (a member name that is not a legal field name as it stands, is changed by snake-casing, or shares its snake form with another member of the same object)",
+            "toSnake_lower": "every non-empty name of lower-case ASCII letters is left unchanged by convert_case's snake conversion (so D17's complement contains all such names)",
         },
-        "partial": ["proved for all shapes: every struct/enum name is defined once (D15 repair) and every referenced type name is defined in the module (refs_defined). Not theorems: legality and distinctness of field names (false of the code: D17) and everything else rustc checks; decided on every generated file by the independent item parser and name-resolution check, and on batches by rustc",
+        "partial": ["proved for all shapes: every struct/enum name is defined once (D15 repair) and every referenced type name is defined in the module (refs_defined); proved for all shapes outside the recorded class D17: every field name is a legal, distinct identifier (fields_legal). Not theorems: legality of field names inside D17 (false of the code) and everything else rustc checks (variant-name clashes D16, tuple arity D19, derive bounds); decided on every generated file by the independent item parser and name-resolution check, and on batches by rustc",
                     "known findings: member names whose snake form is not a legal or distinct field name (D17), tuples of more than 12 elements (D19)"],
         "rule": "gen on shapes inferred from random histories (`gen`, property domain) and on arbitrary shapes (`genx`, model/code comparison only), compile on source sets: the returned text is parsed by an independent parser of codegen's item syntax, names are resolved (each referenced type defined exactly once or standard, legal distinct field/variant/type names, tuple arity), and the first 60 (thorough: 600) modules that pass are included in a module as documented and compiled by rustc against serde. Non-trivial = a module with at least one struct or enum.",
         "assumptions": ["rustc and serde_derive as installed decide 'compiles' for the batches; the item parser + resolution check decides it on every case"],
@@ -540,6 +543,15 @@ def direct_oracle(pid, ops, impl):
                 if int(r) > 8 * n * n + 8:
                     fails.append({"op": o, "impl": r, "expected": f"at most 8*{n}^2+8 conversions for a document of {n} nodes",
                                   "why": "the number of recursive conversions is not bounded by a low-degree polynomial of the input size (proved bound for the model: one per node)"})
+        for o, r in zip(ops, impl):
+            f = o.split("\t")
+            if f[0] in ("ticks_subset", "ticks_merger") and len(f) == 3:
+                cnt = r.split(" ")[-1]
+                if cnt.isdigit():
+                    na, nb = len(f[1].split()), len(f[2].split())
+                    if int(cnt) > 8 * (na + nb) * (na + nb) + 8:
+                        fails.append({"op": o, "impl": r, "expected": f"at most 8*({na}+{nb})^2+8 recursive calls for shapes of {na} and {nb} nodes",
+                                      "why": "the number of recursive calls is not bounded by a low-degree polynomial of the sizes of the two shapes (proved bound for the model: size a * size b)"})
         fam = {}
         for o, r in zip(ops, impl):
             f = o.split("\t")
